@@ -196,6 +196,22 @@ func runC08Panic(c *Ctx) {
 				return
 			}
 			if rf := rootFunc(f); isNewHelper(rf) {
+				// a helper split off reviewed code: every call site lies in a function whose panics are reviewed
+				if sites := c.P.callSitesOf(rf); len(sites) > 0 {
+					why, all := "", true
+					for _, cs := range sites {
+						w, ok := reviewedPanics[FuncName(rootFunc(cs.Parent()))]
+						if !ok {
+							all = false
+							break
+						}
+						why = w
+					}
+					if all {
+						c.Except(p.Pos(), fn, construct, "helper split off reviewed code: "+why)
+						return
+					}
+				}
 				if _, _, _, ok := tagAssertSummary(rf); ok {
 					c.Except(p.Pos(), fn, construct, "a tag assertion introduced since the baseline (panics unless the geometry's tag equals the requested type): "+reviewedPanics["geom.(Geometry).check"])
 					return
